@@ -1064,7 +1064,7 @@ PROPS["C14"] = {
     "oracles": [no_panic_oracle],
     "rule": "seeded programs with 1-3 declare statements at random positions (top, inside loops, after rows), expressions over output-capable signals and over names that are also program variables (let Q = ...), "
             "with and without a column for the virtual signal; drivers whose answers vary per call and contain Z / X; non-trivial = has a declaration and yields a row",
-    "proved": "value of a virtual signal = its expression over THIS call's outputs with no program variables; blind to variables; variable maps restored after every evaluation; Z/X read -> error item; "
+    "proved": "run level through errors (VarsRunProof): every declared signal of every row of every run = its expression without variables over that row's answer; variables untouched in every outcome of next(); value of a virtual signal = its expression over THIS call's outputs with no program variables; blind to variables; variable maps restored after every evaluation; Z/X read -> error item; "
               "expected value by column name or X (C06), 64 bits (C07)",
     "validated_only": "that declarations anywhere among the statements are collected by the parser independently of position (the parser model is compared on every case); that the crate evaluates as the model",
     "assumptions": ["Iter.v / Eval.v / Parser.v model the crate (checked by this run)"],
@@ -1479,7 +1479,7 @@ PROPS["C19"] = {
     "rule": "seeded programs printed twice: plainly, and with blank and comment-only lines after (and before) the header, comments at line ends, CRLF line ends, tabs and carriage returns as blank space, "
             "rows as the last line with or without newline, rows at loop depth 0-3 and as repeat rows; the printer records the physical 1-based line of every row statement and the oracle compares it with "
             "the parser's line fields and with the line of every yielded row (all X/C expansions and loop iterations); non-trivial = at least one row",
-    "proved": "the Eol tokens are exactly the newline characters, in order, and nothing else contains one; the header's line counter is 1 + newlines consumed; every expansion of a row keeps its line; "
+    "proved": "run level through errors (LinesRunProof): every row of every dynamic or static run reports 1 + the newlines before its data row in the source (its own source for a loaded test); expansions share the line; the Eol tokens are exactly the newline characters, in order, and nothing else contains one; the header's line counter is 1 + newlines consumed; every expansion of a row keeps its line; "
               "(with proofs/ParserLinesProof.v when present in props/C19.v) the line recorded for a row = 1 + newlines before its first token",
     "validated_only": "the parser half where not yet in props/C19.v; .dig sources: the count is relative to the test's own source text because load_test parses that text alone (C16_load_test)",
     "assumptions": ["Lexer.v / Parser.v model the crate (checked by this run)"],
